@@ -84,6 +84,46 @@ def pki():
     return _PKI
 
 
+_CPKI = None
+
+
+def client_pki():
+    """client_certs configurations: rootC (NOT a configured trusted CA for servers) issues the proxy's TLS client certificate.
+    files: client-leaf.pem (key + leaf), client-bundle.pem (key + leaf + rootC), clientdir/<name>.pem (bundles, per server name)"""
+    global _CPKI
+    if _CPKI is not None: return _CPKI
+    os.makedirs(CERTS, exist_ok=True)
+    f = os.path.join(CERTS, "clientpki.json")
+    if not os.path.exists(f):
+        rk, ck = ec.generate_private_key(ec.SECP256R1()), ec.generate_private_key(ec.SECP256R1())
+        rootC = _ca("verif C15 client-cert CA", rk)
+        name = x509.Name([x509.NameAttribute(NameOID.COMMON_NAME, "verif proxy client")])
+        cl = (x509.CertificateBuilder().subject_name(name).issuer_name(rootC.subject).public_key(ck.public_key())
+              .serial_number(x509.random_serial_number()).not_valid_before(_now() - datetime.timedelta(days=1))
+              .not_valid_after(_now() + datetime.timedelta(days=3650))
+              .add_extension(x509.BasicConstraints(ca=False, path_length=None), critical=True).sign(rk, hashes.SHA256()))
+        j = {"rootC_key": _pem_key(rk).decode(), "client_key": _pem_key(ck).decode(),
+             "rootC": rootC.public_bytes(serialization.Encoding.PEM).decode(), "client": cl.public_bytes(serialization.Encoding.PEM).decode()}
+        tmp = f + ".tmp%d" % os.getpid()
+        json.dump(j, open(tmp, "w")); os.replace(tmp, f)
+    j = json.load(open(f))
+
+    def put(path, text):
+        if not os.path.exists(path):
+            os.makedirs(os.path.dirname(path), exist_ok=True)
+            open(path + ".tmp%d" % os.getpid(), "w").write(text); os.replace(path + ".tmp%d" % os.getpid(), path)
+        return path
+    leaf_pem = put(os.path.join(CERTS, "client-leaf.pem"), j["client_key"] + j["client"])
+    bundle = put(os.path.join(CERTS, "client-bundle.pem"), j["client_key"] + j["client"] + j["rootC"])
+    cdir = os.path.join(CERTS, "clientdir")
+    for n in (HOST, "192.0.2.1", "example.com", "other.example.com"):
+        put(os.path.join(cdir, n + ".pem"), j["client_key"] + j["client"] + j["rootC"])
+    _CPKI = {"rootC": x509.load_pem_x509_certificate(j["rootC"].encode()),
+             "rootC_key": serialization.load_pem_private_key(j["rootC_key"].encode(), None),
+             "files": {"leaf": leaf_pem, "bundle": bundle, "dir": cdir}}
+    return _CPKI
+
+
 def gname(spec):
     k, v = spec
     if k == "dns": return x509.DNSName(v)
@@ -119,6 +159,9 @@ def leaf(spec):
         name = x509.Name(subj)
         if iss == "self":
             issuer_name, ikey = name, lk
+        elif iss == "rootC":
+            C = client_pki()
+            issuer_name, ikey = C["rootC"].subject, C["rootC_key"]
         else:
             issuer_name, ikey = P["certs"][iss].subject, P["keys"][iss]
         nb, na = {"ok": (-1, 3650), "expired": (-30, -1), "future": (1, 30)}[spec["validity"]]
@@ -242,6 +285,7 @@ TARGETS = [  # (client_sni, server_sni, address)
     ("w.example.com", None, "10.0.0.1"), ("ww.example.com", None, "10.0.0.1"), ("*.example.com", None, "10.0.0.1"), (None, None, "a..b"),
 ]
 TRUST = ["file", "dir", "insecure", "insecure-nofile", "default-store"]
+CLIENT_CERTS = [None, "leaf", "bundle", "dir"]      # option client_certs: unset / key+leaf / key+leaf+its CA / directory of per-host bundles
 
 
 class Check(PropertyCheck):
@@ -262,9 +306,11 @@ class Check(PropertyCheck):
     technique = "Lean 4 proof (decision model + name-matching specification + refinement of the OpenSSL transcription) + translator (flag constants, AST facts) + real-handshake correspondence with an independent chain verifier"
     rule = ("hs: name set (22 shapes: matching, mismatched, wildcard, partial/second-label/double/TLD wildcards, CN-only, IP SAN, IP as dNSName, IDN, case, "
             "non-DNS SANs) x validity {ok, expired, not yet valid} x issuer {trusted root, other root, self-signed, intermediate with/without chain} x target "
-            "(client SNI / preset server SNI / address; host, IPv4, IPv6, IDN, case, empty) x trust {CA file, hashed CA dir, ssl_insecure, certifi default}; "
+            "(client SNI / preset server SNI / address; host, IPv4, IPv6, IDN, case, empty) x trust {CA file, hashed CA dir, ssl_insecure, certifi default} x client_certs {unset, key+leaf, key+leaf+CA bundle, per-host directory} with servers "
+            "chaining to the client-cert CA / the trusted CA / neither; seq: two consecutive connections to one TLS<=1.2 server (shared session cache) at one address with "
+            "different SNI / trust settings; "
             "nm: pattern/reference pairs for the name rule. distinct = distinct case; non-trivial = a TLS connection object was built.")
-    budget = {"quick": 900, "thorough": 14000}
+    budget = {"quick": 2500, "thorough": 20000}
     time_budget = {"quick": 35, "thorough": 500}
     fingerprints = ["mitmproxy.addons.tlsconfig:TlsConfig.tls_start_server", "mitmproxy.net.tls:create_proxy_server_context",
                     "mitmproxy.proxy.layers.tls:TLSLayer.receive_handshake_data", "mitmproxy.proxy.layers.tls:TLSLayer.on_handshake_error",
@@ -308,7 +354,7 @@ class Check(PropertyCheck):
         return {"MitmVerif/Gen/C15.lean": "\n".join(L)}
 
     def setup(self, tier):
-        pki()
+        pki(); client_pki()
 
     # ---- generator ----------------------------------------------------------------------------------------------
     def generate(self, rng, tier):
@@ -326,6 +372,20 @@ class Check(PropertyCheck):
             for issuer in ("rootA", "rootB", "self", "interA", "interA-nochain"):
                 for trust in TRUST:
                     yield hs("matching", T0, trust, validity, issuer)
+        # client_certs x where the server's chain leads (client-cert CA / configured trusted CA / neither) x trust
+        for cc in (None, "leaf", "bundle", "dir"):
+            for issuer in ("rootC", "rootA", "rootB", "self"):
+                for trust in ("file", "dir", "default-store", "insecure"):
+                    for t in (T0, TARGETS[2]):
+                        c = hs("matching" if t is T0 else "ip-san", t, trust, "ok", issuer); c["client_certs"] = cc; yield c
+        # two consecutive connections to one server at one address: other SNI / other trust settings on the second
+        def seq(names, first, second):
+            mk = lambda t: {"client_sni": t[0], "server_sni": None, "trust": t[1]}
+            return {"op": "seq", "conns": [dict(mk(first), cert={"sans": NAMESETS[names], "cn": None, "validity": t_val, "issuer": t_iss}), mk(second)]}
+        for t_val, t_iss in (("ok", "rootA"), ("ok", "rootB"), ("expired", "rootA"), ("ok", "self")):
+            for first in ((HOST, "file"), (HOST, "insecure"), ("other.example.com", "insecure"), (HOST, "dir")):
+                for second in ((HOST, "file"), ("bank.example.net", "file"), ("other.example.com", "dir"), (HOST, "default-store"), ("bank.example.net", "insecure")):
+                    yield seq("matching", first, second)
         for t in TARGETS:                                          # target forms
             for names in ("matching", "wildcard", "ip-san", "ip6-san", "idn", "idn-wildcard", "upper", "underscore-wildcard", "trailing-dot"):
                 yield hs(names, t)
@@ -341,7 +401,16 @@ class Check(PropertyCheck):
         alpha = b"*.aw-_.A*."
         while True:
             x = rng.random()
-            if x < 0.45:
+            if x < 0.08:
+                t_val, t_iss = rng.pick(["ok", "ok", "expired"]), rng.pick(["rootA", "rootA", "rootB", "self", "rootC"])
+                snis = [HOST, "other.example.com", "bank.example.net", "a.b.example.com"]
+                yield seq(rng.pick(["matching", "wildcard", "mismatched"]), (rng.pick(snis), rng.pick(TRUST)), (rng.pick(snis), rng.pick(TRUST)))
+            elif x < 0.45:
+                c = hs(rng.pick(list(NAMESETS)), rng.pick(TARGETS), rng.pick(TRUST), rng.pick(["ok", "ok", "ok", "expired", "future"]),
+                       rng.pick(["rootA", "rootA", "rootC", "rootB", "self", "interA"]), cn=rng.pick([None, None, HOST]))
+                c["client_certs"] = rng.pick([None, "leaf", "bundle", "dir"])
+                yield c
+            elif x < 0.5:
                 yield hs(rng.pick(list(NAMESETS)), rng.pick(TARGETS), rng.pick(TRUST), rng.pick(["ok", "ok", "ok", "expired", "future"]),
                          rng.pick(["rootA", "rootA", "rootA", "rootB", "self", "interA", "interA-nochain"]),
                          cn=rng.pick([None, None, HOST, "192.0.2.1", "*.example.com"]))
@@ -356,6 +425,30 @@ class Check(PropertyCheck):
     def impl(self, case):
         if case["op"] == "nm":
             return {"py": py_match_dns(unhx(case["p_hex"]), unhx(case["r_hex"]))}
+        if case["op"] == "seq":
+            # consecutive connections to ONE server (one SSL context: session cache / tickets shared, TLS <= 1.2 so that a session is
+            # resumable right after the handshake) at one address; each connection has its own SNI and trust settings
+            sctx = self.server_ctx(case["conns"][0]["cert"], tls12=True)
+            addr = "10.77.%d.%d" % divmod(int(hashlib.sha256(json.dumps(case, sort_keys=True).encode()).hexdigest()[:4], 16), 256)
+            return {"conns": [self._hs(dict(c, cert=case["conns"][0]["cert"], address=addr), sctx) for c in case["conns"]]}
+        return self._hs(case, None)
+
+    def server_ctx(self, cert_spec, tls12=False, sni_seen=None):
+        P = pki()
+        cert, extra = leaf(cert_spec)
+        sctx = SSL.Context(SSL.TLS_SERVER_METHOD)
+        if tls12:
+            sctx.set_max_proto_version(SSL.TLS1_2_VERSION)
+            sctx.set_session_id(b"verif-c15")
+            sctx.set_session_cache_mode(SSL.SESS_CACHE_SERVER)
+        sctx.use_certificate(cert)
+        for e in extra: sctx.add_extra_chain_cert(e)
+        sctx.use_privatekey(P["keys"]["leaf"])
+        self._sni_seen = []
+        sctx.set_tlsext_servername_callback(lambda c: self._sni_seen.append(c.get_servername()))
+        return sctx
+
+    def _hs(self, case, sctx):
         from c14_tls import Child, Peer, tls_addon, addon_hooks, make_ctx, pump
         from common.world import World
         from mitmproxy.proxy import commands, events
@@ -366,6 +459,8 @@ class Check(PropertyCheck):
         tctx.options.ssl_insecure = trust.startswith("insecure")
         tctx.options.ssl_verify_upstream_trusted_ca = P["cafile"] if trust in ("file", "insecure") else None
         tctx.options.ssl_verify_upstream_trusted_confdir = P["cadir"] if trust == "dir" else None
+        cc = case.get("client_certs")
+        tctx.options.client_certs = client_pki()["files"][cc] if cc else None
         ctx = make_ctx(tctx, client_sni=case["client_sni"], address=(case["address"], 443), server_sni=case["server_sni"])
 
         def script(child, ev):
@@ -380,13 +475,9 @@ class Check(PropertyCheck):
         hooks = []
         w = World(tl, ctx, on_hook=addon_hooks(ta, hooks))
         w.start()
-        cert, extra = leaf(case["cert"])
-        sctx = SSL.Context(SSL.TLS_SERVER_METHOD)
-        sctx.use_certificate(cert)
-        for e in extra: sctx.add_extra_chain_cert(e)
-        sctx.use_privatekey(P["keys"]["leaf"])
-        sni_seen = []
-        sctx.set_tlsext_servername_callback(lambda c: sni_seen.append(c.get_servername()))
+        if sctx is None: sctx = self.server_ctx(case["cert"])
+        self._sni_seen.clear()
+        sni_seen = self._sni_seen
         sc = SSL.Connection(sctx); sc.set_accept_state()
         peer = Peer(sc)
         lab = w.label(ctx.server)
@@ -409,6 +500,11 @@ class Check(PropertyCheck):
     # ---- oracle -------------------------------------------------------------------------------------------------
     def oracle(self, case, obs):
         if case["op"] == "nm": return []
+        if case["op"] == "seq":
+            # the statement holds for every connection, whatever happened on earlier ones
+            cert = case["conns"][0]["cert"]
+            return [f"connection {i + 1}: {f}" for i, (c, o) in enumerate(zip(case["conns"], obs["conns"]))
+                    for f in self.oracle(dict(c, op="hs", cert=cert, address="seq"), o)]
         if "exc" in obs: return ["layer raised " + obs["exc"]]
         fails = []
         insecure = case["trust"].startswith("insecure")
@@ -444,6 +540,9 @@ class Check(PropertyCheck):
     def model_lines(self, case):
         if case["op"] == "nm":
             return [f"match {case['p_hex']} {case['r_hex']}"]
+        if case["op"] == "seq":
+            cert = case["conns"][0]["cert"]
+            return [self.model_lines(dict(c, op="hs", cert=cert, address="10.77.0.1"))[0] for c in case["conns"]]
         o = lambda v: "n" if v is None else hx(v.encode())
         eff = eff_sni(case)
         cls = classify_server_name(eff) if eff else "x"
@@ -453,6 +552,8 @@ class Check(PropertyCheck):
         return [f"hs {int(case['trust'].startswith('insecure'))} {o(case['server_sni'])} {o(case['client_sni'])} {hx(case['address'].encode())} {cls or 'x'} {chain} {sans}"]
 
     def model_obs(self, case, replies):
+        if case["op"] == "seq":
+            return [self.model_obs(dict(c, op="hs"), [r]) for c, r in zip(case["conns"], replies)]
         r = replies[0]
         if case["op"] == "nm":
             return r.split(" ")[0]                       # spec=0/1
@@ -461,20 +562,25 @@ class Check(PropertyCheck):
         return {"outcome": f[0], "sni_ext": None if f[0] == "hookRaised" else ext}
 
     def impl_view(self, case, obs):
+        if case["op"] == "seq":
+            return [self.impl_view(dict(c, op="hs"), o) for c, o in zip(case["conns"], obs["conns"])]
         if case["op"] == "nm": return "spec=%d" % int(obs["py"])
         if "exc" in obs: return obs
         ext = obs["sni_ext"]
         return {"outcome": obs["outcome"], "sni_ext": None if obs["outcome"] == "hookRaised" else ("none" if ext is None else ext)}
 
     def classify(self, case, obs):
+        if case["op"] == "seq": return json.dumps(case, sort_keys=True)
         if case["op"] == "nm": return ("nm", case["p_hex"], case["r_hex"])
         if "exc" in obs or obs["outcome"] == "hookRaised": return None
         return json.dumps(case, sort_keys=True)
 
     def branches(self, case, obs):
+        if case["op"] == "seq":
+            return ["seq:" + ">".join(o.get("outcome", "exc") for o in obs["conns"])]
         if case["op"] == "nm": return ["nm:" + ("match" if obs["py"] else "no-match")]
         if "exc" in obs: return ["exc"]
-        return ["hs:" + obs["outcome"], "trust:" + case["trust"], "names:" + case["names"] + ":" + obs["outcome"],
+        return ["hs:" + obs["outcome"], "trust:" + case["trust"], "client_certs:%s:%s" % (case.get("client_certs"), obs["outcome"]), "names:" + case["names"] + ":" + obs["outcome"],
                 "issuer:" + case["cert"]["issuer"] + "/" + case["cert"]["validity"] + ":" + obs["outcome"]]
 
     def neighbours(self, case, rng):
